@@ -70,7 +70,13 @@ FLOORS = {
     "thorough": {"evaluations": 60000, "distinct": 30000,
                  "counters": {"twin_invocations": 30000, "marked_renders": 30000,
                               "security_errors": 30000, "async_cases": 8000,
-                              "override_env_cases": 12000}},
+                              "override_env_cases": 12000,
+                              "history_cases": 16000, "history_allowed_calls": 27000,
+                              "history_security_errors": 22000,
+                              "history_verdict_flips_allow_to_block": 7500,
+                              "history_verdict_flips_block_to_allow": 2700,
+                              "history_one_render_steps": 9500, "history_async_cases": 6500,
+                              "history_override_env_cases": 8000}},
 }
 
 # ------------------------------------------------------------------ grammar
